@@ -245,7 +245,7 @@ where
             sudo_fn: Some(Box::new(sudo_fn)),
             reply_fn: self.reply_fn,
             migrate_fn: self.migrate_fn,
-            checksum: None,
+            checksum: self.checksum,
         }
     }
 
@@ -265,7 +265,7 @@ where
             sudo_fn: Some(customize_permissioned_fn(sudo_fn)),
             reply_fn: self.reply_fn,
             migrate_fn: self.migrate_fn,
-            checksum: None,
+            checksum: self.checksum,
         }
     }
 
@@ -284,7 +284,7 @@ where
             sudo_fn: self.sudo_fn,
             reply_fn: Some(Box::new(reply_fn)),
             migrate_fn: self.migrate_fn,
-            checksum: None,
+            checksum: self.checksum,
         }
     }
 
@@ -303,7 +303,7 @@ where
             sudo_fn: self.sudo_fn,
             reply_fn: Some(customize_permissioned_fn(reply_fn)),
             migrate_fn: self.migrate_fn,
-            checksum: None,
+            checksum: self.checksum,
         }
     }
 
@@ -323,7 +323,7 @@ where
             sudo_fn: self.sudo_fn,
             reply_fn: self.reply_fn,
             migrate_fn: Some(Box::new(migrate_fn)),
-            checksum: None,
+            checksum: self.checksum,
         }
     }
 
@@ -343,7 +343,7 @@ where
             sudo_fn: self.sudo_fn,
             reply_fn: self.reply_fn,
             migrate_fn: Some(customize_permissioned_fn(migrate_fn)),
-            checksum: None,
+            checksum: self.checksum,
         }
     }
 
